@@ -13,15 +13,19 @@
 (*                                                                         *)
 (* Values are abstract Python objects [t, v]: t in {"int","float","bool",  *)
 (* "str"}, with Python's equality and hash (1 == 1.0 == True; 0.0 == -0.0  *)
-(* where -0.0 is written "nz").  Enc gives the bytes a fresh process       *)
+(* where -0.0 is written "nz"; the two readings fold=0 / fold=1 of a wall  *)
+(* clock time that occurs twice when daylight saving time ends are equal   *)
+(* and hash alike, but are an hour apart in UTC: "dt" values t0 / t1).     *)
+(* Enc gives the bytes a fresh process                                     *)
 (* writes; Written gives what this process writes.  The switches Typed /   *)
-(* BypassFloat / BypassRef / Invalidate / MarkDerived / KeepData select    *)
+(* BypassFloat / BypassDtime / BypassRef / Invalidate / MarkDerived /      *)
+(* KeepData select                                                         *)
 (* the historical behaviour (all FALSE resp. TRUE reproduces the pinned    *)
 (* tree and makes the invariants fail - used by the selftest).             *)
 (***************************************************************************)
 EXTENDS Naturals, Sequences, FiniteSets, TLC
 
-CONSTANTS Typed, BypassFloat, BypassRef, Invalidate, MarkDerived, KeepData, MaxOps
+CONSTANTS Typed, BypassFloat, BypassDtime, BypassRef, Invalidate, MarkDerived, KeepData, MaxOps
 
 VARIABLES
   vcache,     \* set of [key, bytes]: the write_struct cache
@@ -37,16 +41,17 @@ VARIABLES
 vars == << vcache, name, oref, obcache, refcache, cast, kept, out, want, nops >>
 
 Vals == { [t |-> "int", v |-> "1"], [t |-> "float", v |-> "1"], [t |-> "bool", v |-> "1"],
-          [t |-> "int", v |-> "0"], [t |-> "float", v |-> "0"], [t |-> "float", v |-> "nz"] }
+          [t |-> "int", v |-> "0"], [t |-> "float", v |-> "0"], [t |-> "float", v |-> "nz"],
+          [t |-> "dt", v |-> "t0"], [t |-> "dt", v |-> "t1"] }
 (* Python equality / hash classes *)
-PyKey(x) == IF x.v = "nz" THEN "0" ELSE x.v
+PyKey(x) == IF x.v = "nz" THEN "0" ELSE IF x.t = "dt" THEN "t" ELSE x.v
 Codes == {"ASCII", "FDOUBL"}
 (* the bytes a fresh process writes *)
 Enc(c, x) == IF c = "ASCII" THEN << x.t, x.v >>        \* str(1) = "1", str(1.0) = "1.0", str(True) = "True", str(-0.0) = "-0.0"
              ELSE << "f8", x.v >>                       \* 1, 1.0 and True give the same double; 0.0 and -0.0 do not
 Key(c, x) == IF Typed THEN << c, x.t, PyKey(x) >> ELSE << c, PyKey(x) >>
 Cached(c, x) == { e \in vcache : e.key = Key(c, x) }
-Bypass(x) == BypassFloat /\ x.t = "float"
+Bypass(x) == (BypassFloat /\ x.t = "float") \/ (BypassDtime /\ x.t = "dt")
 WriteStruct(c, x) == IF Bypass(x) \/ Cached(c, x) = {} THEN Enc(c, x) ELSE (CHOOSE e \in Cached(c, x) : TRUE).bytes
 CacheAfter(c, x) == IF Bypass(x) \/ Cached(c, x) # {} THEN vcache ELSE vcache \cup {[key |-> Key(c, x), bytes |-> Enc(c, x)]}
 
